@@ -630,13 +630,38 @@ Proof.
     + rewrite IH by lia. destruct h; lia.
 Qed.
 
-Theorem taiko_oneshot_combo flags take : 0 <= take ->
+Lemma taiko_total_hits_nonneg flags : 0 <= taiko_total_hits flags.
+Proof. unfold taiko_total_hits. apply zlen_nonneg. Qed.
+
+Theorem taiko_oneshot_combo flags take : 0 <= take -> taiko_total_hits flags < U32_MAX ->
   fst (taiko_oneshot S process s0 flags take) = Z.min take (taiko_total_hits flags).
 Proof.
-  intros Ht. unfold taiko_oneshot, taiko_create.
-  pose proof (taiko_inspect_combo flags take 0 0 Ht) as H.
-  destruct (taiko_inspect flags take 0 0) as [combo n]. cbn [fst] in H.
+  intros Ht Hsmall. unfold taiko_oneshot, taiko_create.
+  pose proof (taiko_total_hits_nonneg flags) as Hnn.
+  assert (Ht' : 0 <= taiko_take flags take).
+  { unfold taiko_take, U32_MAX. destruct (_ && _); lia. }
+  pose proof (taiko_inspect_combo flags (taiko_take flags take) 0 0 Ht') as H.
+  assert (Hmin : Z.min (taiko_take flags take) (0 + taiko_total_hits flags) = Z.min take (taiko_total_hits flags)).
+  { unfold taiko_take. destruct (0 <? taiko_total_hits flags) eqn:E1, (taiko_total_hits flags <=? take) eqn:E2;
+      cbn [andb]; zb; unfold U32_MAX in *; lia. }
+  rewrite Hmin in H.
+  destruct (taiko_inspect flags (taiko_take flags take) 0 0) as [combo n]. cbn [fst] in H.
   destruct (zlen flags <? 2); cbn [fst]; lia.
+Qed.
+
+(* the fix for F6c: once every hit has been passed the whole map has been passed — the value for
+   take = hits is the value of the unlimited calculation (and of every take beyond) *)
+Theorem taiko_final_is_full flags take : 0 < taiko_total_hits flags -> taiko_total_hits flags <= take ->
+  taiko_oneshot S process s0 flags take = taiko_oneshot S process s0 flags (taiko_total_hits flags).
+Proof.
+  intros Hpos Hge. unfold taiko_oneshot, taiko_create.
+  assert (E : taiko_take flags take = taiko_take flags (taiko_total_hits flags)).
+  { unfold taiko_take.
+    replace (0 <? taiko_total_hits flags) with true by (symmetry; apply Z.ltb_lt; lia).
+    replace (taiko_total_hits flags <=? take) with true by (symmetry; apply Z.leb_le; lia).
+    replace (taiko_total_hits flags <=? taiko_total_hits flags) with true by (symmetry; apply Z.leb_le; lia).
+    reflexivity. }
+  rewrite E. reflexivity.
 Qed.
 
 End Counts.
@@ -756,14 +781,14 @@ Definition taiko_run (flags : list bool) (ops : list gop) :=
 Definition taiko_spec (flags : list bool) (ops : list gop) :=
   spec_gops (oneshots (taiko_oneshot (list Z) trace_process [] flags) (taiko_total_hits flags)) ops.
 
-(* trailing non-hit objects: the final gradual value (= one-shot with all hits passed) misses the
-   objects after the last hit that the unlimited one-shot calculation processes — finding F6c *)
-Lemma taiko_trailing_refuted :
-  exists flags,
-    let full := taiko_oneshot (list Z) trace_process [] flags USIZE_MAX in
-    let last_v := taiko_oneshot (list Z) trace_process [] flags (taiko_total_hits flags) in
-    snd full <> snd last_v.
-Proof. exists [true; true; true; false]. vm_compute. congruence. Qed.
+(* trailing non-hit objects (former finding F6c, fixed): the final gradual value (= one-shot with
+   all hits passed) now includes the objects after the last hit, like the unlimited calculation *)
+Example taiko_trailing_now_ok :
+  let flags := [true; true; true; false] in
+  taiko_oneshot (list Z) trace_process [] flags USIZE_MAX
+  = taiko_oneshot (list Z) trace_process [] flags (taiko_total_hits flags)
+  /\ taiko_run flags [GNext; GNext; GNext; GNext] = taiko_spec flags [GNext; GNext; GNext; GNext].
+Proof. vm_compute. split; reflexivity. Qed.
 
 (* the maps of the former findings F6a / F6b now behave like the reference iterator *)
 Example taiko_first_not_hit_ok :
